@@ -111,7 +111,7 @@ func (in *Interp) schedule(why string) {
 			in.abortPath(outcomeDeadlock, "all goroutines blocked: "+in.describeBlocked())
 		}
 		var next *G
-		if len(rs) == 1 {
+		if len(rs) == 1 && !(in.slowUsed < in.cfg.SlowBudget && in.hasActiveTimer()) {
 			next = rs[0]
 		} else {
 			// preemption bound: switching away from a runnable current goroutine costs one
@@ -132,15 +132,34 @@ func (in *Interp) schedule(why string) {
 			} else if curRunnable && in.cfg.PreemptBound >= 0 && in.preemptions >= in.cfg.PreemptBound {
 				next = cur
 			} else {
-				alts := make([]*Term, len(rs))
+				// slow=N: up to N times the clock may move on although some goroutine could
+				// run (a goroutine that is descheduled for a while, e.g. between reading the
+				// clock and taking a lock): one more alternative, "time passes"
+				slow := in.slowUsed < in.cfg.SlowBudget && in.hasActiveTimer()
+				n := len(rs)
+				if slow {
+					n++
+				}
+				alts := make([]*Term, n)
 				for i := range alts {
 					alts[i] = in.tc.True()
 				}
-				labels := make([]string, len(rs))
+				labels := make([]string, n)
 				for i, g := range rs {
 					labels[i] = g.name
 				}
+				if slow {
+					labels[n-1] = "time-passes"
+				}
 				k := in.decide(alts, "sched@"+why, labels)
+				if slow && k == n-1 {
+					in.slowUsed++
+					if curRunnable {
+						in.preemptions++
+					}
+					in.advanceTime()
+					continue
+				}
 				next = rs[k]
 				if curRunnable && next != cur {
 					in.preemptions++
@@ -603,6 +622,15 @@ func (in *Interp) newTimer(d *Term, what string) *Timer {
 
 // advanceTime fires the earliest active timer, moving the clock forward.
 // Returns false if there is no active timer.
+func (in *Interp) hasActiveTimer() bool {
+	for _, t := range in.timers {
+		if t.active {
+			return true
+		}
+	}
+	return false
+}
+
 func (in *Interp) advanceTime() bool {
 	var act []*Timer
 	for _, t := range in.timers {
